@@ -9,4 +9,5 @@ INVARIANT KeyDetermines
 INVARIANT EnvironmentRule
 INVARIANT GroupsAccounted
 INVARIANT RelabelRule
+INVARIANT ExistingBlocksRule
 CHECK_DEADLOCK FALSE
